@@ -403,23 +403,49 @@ def alloc_sites():
 
 
 
+INT_MAX_CONSTS = {"u8": 255, "i8": 127, "u16": 65535, "i16": 32767, "u32": 2 ** 32 - 1, "i32": 2 ** 31 - 1}
+
+
+def int_of(text):
+    t = re.sub(r"_?(u8|i8|u16|u32|u64|u128|usize|i16|i32|i64|i128|isize)$", "", text).replace("_", "")
+    try:
+        tl = t.lower()
+        return int(tl, 16) if tl.startswith("0x") else (int(tl[2:], 8) if tl.startswith("0o") else (int(tl[2:], 2) if tl.startswith("0b") else int(tl)))
+    except ValueError:
+        return None
+
+
 def numbers():
-    """integer literals of the library sources of both crates (comments and strings excluded), 2 <= v <= 2^33"""
+    """numbers the library sources of both crates name (comments and strings excluded), 2 <= v <= 2^33: integer literals,
+       products / shifts / sums / differences of two adjacent literals (`64 * 1024`, `1 << 20`), and `uN::MAX` / `iN::MAX`"""
     vals = set()
     for c in CRATES:
         for f in sorted(glob.glob(os.path.join(REPO, c, "src", "**", "*.rs"), recursive=True)):
-            for kind, text, _ in lex(open(f, encoding="utf-8", errors="replace").read()):
-                if kind != "num":
-                    continue
-                t = re.sub(r"_?(u8|i8|u16|u32|u64|u128|usize|i16|i32|i64|i128|isize)$", "", text).replace("_", "")
-                try:
-                    tl = t.lower()
-                    v = int(tl, 16) if tl.startswith("0x") else (int(tl[2:], 8) if tl.startswith("0o") else (int(tl[2:], 2) if tl.startswith("0b") else int(tl)))
-                except ValueError:
-                    continue
-                if 2 <= v <= 2 ** 33:
+            toks = lex(open(f, encoding="utf-8", errors="replace").read())
+            for k, (kind, text, _) in enumerate(toks):
+                if kind == "num":
+                    v = int_of(text)
+                    if v is None:
+                        continue
                     vals.add(v)
-    return sorted(vals)
+                    # `a op b` with b a literal too (`<<` is two `<` tokens)
+                    if k + 2 < len(toks):
+                        op = toks[k + 1][1]
+                        j = k + 2
+                        if op == "<" and toks[k + 2][1] == "<":
+                            op, j = "<<", k + 3
+                        if j < len(toks) and toks[j][0] == "num":
+                            b = int_of(toks[j][1])
+                            if b is not None:
+                                try:
+                                    r = {"*": v * b, "+": v + b, "-": v - b, "<<": (v << b) if b < 40 else None}.get(op)
+                                except Exception:
+                                    r = None
+                                if r is not None:
+                                    vals.add(r)
+                elif kind == "ident" and text in INT_MAX_CONSTS and k + 3 < len(toks) and toks[k + 1][1] == ":" and toks[k + 2][1] == ":" and toks[k + 3][1] in ("MAX", "BITS"):
+                    vals.add(INT_MAX_CONSTS[text] if toks[k + 3][1] == "MAX" else int(text[1:]))
+    return sorted(v for v in vals if 2 <= v <= 2 ** 33)
 
 
 STATIC_SIZES = {0, 1, 2, 3, 4, 5, 6, 7, 8, 9, 13, 16, 17, 32, 33, 48, 64, 96, 128, 130, 200, 255, 300, 512, 4096, 4200, 8192}
@@ -436,6 +462,17 @@ def dict_sizes(nums):
                     out.append(x)
     # literals of the code proper come before those of its tests only by accident of sorting; keep the list bounded
     return sorted(out)[:36]
+
+
+def big_sizes(nums):
+    """buffer SIZEs beyond 10000 (up to 2^21 + 64) named by the source: each with a little room (+64), and its successor"""
+    out = []
+    for v in nums:
+        if 10000 < v <= 2 ** 21:
+            for x in (v + 1, v + 64):
+                if x not in out:
+                    out.append(x)
+    return sorted(out)[:8]
 
 
 
@@ -682,10 +719,10 @@ if __name__ == "__main__":
         if not os.path.exists(out) or open(out).read() != body:
             open(out, "w").write(body)
         sz = out + ".sizes"
-        body = "".join("%d\n" % v for v in dict_sizes(ns))
+        body = "".join("%d\n" % v for v in dict_sizes(ns)) + "".join("big %d\n" % v for v in big_sizes(ns))
         if not os.path.exists(sz) or open(sz).read() != body:   # unchanged file = no rebuild of the harness
             open(sz, "w").write(body)
-        print(json.dumps({"nums": out, "count": len(ns), "sizes": dict_sizes(ns)}))
+        print(json.dumps({"nums": out, "count": len(ns), "sizes": dict_sizes(ns), "big_sizes": big_sizes(ns)}))
     elif "--lint" in sys.argv:
         lint()
     else:
